@@ -189,3 +189,147 @@ Example parse_spells_reachable_not_vacuous :
   forall lenient, parse FmtOkExamples.G lenient (render SpellExamples.D1) = Ok (denote FmtOkExamples.G SpellExamples.D1).
 Proof. exact (conj FmtOkExamples.G_api (conj FmtOkExamples.G_line_ok (conj FmtOkExamples.G_fmt_ok_computed FmtOkExamples.G_parses))). Qed.
 Print Assumptions parse_spells_reachable_not_vacuous.
+
+(* ==== added after the Coq review (REPORT "C01: minor issues" 1 and 4) ====
+   names_resolve.  The four access_agrees_* and the two unset_*_reports_default theorems above take
+   "both names resolve to the same element" as hypotheses, which is the clause itself.  It is now a theorem.
+   fmt_inv alone does NOT give it (names_resolve_needs_short_index: a hand-made format that satisfies fmt_inv
+   and fmt_ok, and resolves -v to --quiet): opts_inv says that the short name of a listed option is indexed, not
+   to what.  The missing piece, short_inv, says that an entry (s, o) of the short-name index - at every level of
+   the base chain - is a listed option whose short name is s; ArgsFormat.__init__ REBUILDS that index from the
+   listing, so short_inv holds for every built format.  names_inv f = fmt_inv f /\ short_inv f. *)
+From Coq Require Import String.
+From Clikit Require Import Proofs.NamesResolveLemmas.
+Local Open Scope string_scope.
+
+Theorem names_inv_reachable : forall base ops,
+  match base with Some bf => names_inv bf | None => True end -> forallb bop_valid ops = true ->
+  names_inv (build_format (brun (empty_builder base) ops)).
+Proof. exact reachable_names_inv. Qed.
+Print Assumptions names_inv_reachable.
+Theorem names_inv_api_format : forall f, api_format f -> names_inv f.
+Proof. exact api_format_names_inv. Qed.
+Print Assumptions names_inv_api_format.
+Theorem names_inv_format_of_elements : forall es base f,
+  match base with Some bf => names_inv bf | None => True end -> forallb element_valid es = true ->
+  format_of_elements es base = Ok f -> names_inv f.
+Proof. exact format_of_elements_names_inv. Qed.
+Print Assumptions names_inv_format_of_elements.
+
+(* every listed option (own or inherited) is listed under its long name; its long name and - if it has one - its
+   short name resolve to it; and a name that resolves at all is the long or the short name of a listed option *)
+Theorem names_resolve_options : forall f, names_inv f ->
+  (forall k o, In (k, o) (get_options f true) ->
+     k = o_long o /\ get_option f (o_long o) true = Ok o /\ has_option f (o_long o) true = true /\
+     forall s, o_short o = Some s -> get_option f s true = Ok o /\ has_option f s true = true) /\
+  (forall n o, get_option f n true = Ok o ->
+     In (o_long o, o) (get_options f true) /\ (n = o_long o \/ o_short o = Some n)).
+Proof. exact names_resolve_options_lemma. Qed.
+Print Assumptions names_resolve_options.
+(* the i-th listed argument (base first): position i and its name resolve to it; and conversely *)
+Theorem names_resolve_arguments : forall f, names_inv f ->
+  (forall i n a, nth_error (get_arguments f true) i = Some (n, a) ->
+     n = a_name a /\
+     get_argument f (APos (Z.of_nat i)) true = Ok a /\ get_argument f (AName n) true = Ok a /\
+     has_argument f (APos (Z.of_nat i)) true = true /\ has_argument f (AName n) true = true) /\
+  (forall r a, get_argument f r true = Ok a ->
+     exists i, nth_error (get_arguments f true) i = Some (a_name a, a) /\
+               (r = AName (a_name a) \/ r = APos (Z.of_nat i))).
+Proof. exact names_resolve_arguments_lemma. Qed.
+Print Assumptions names_resolve_arguments.
+
+(* access_agrees_* / unset_*_reports_default restated for formats of the API: the only hypotheses left say which
+   option / argument is meant ("the option listed as k with short name s", "the argument listed at position i") *)
+Theorem access_agrees_options_reachable : forall f a k o s, api_format f ->
+  In (k, o) (get_options f true) -> o_short o = Some s ->
+  args_option f a k = args_option f a s /\ args_is_option_set f a k = args_is_option_set f a s.
+Proof. exact access_agrees_options_api. Qed.
+Print Assumptions access_agrees_options_reachable.
+(* whatever name resolves reads what the long name of the resolved option reads *)
+Theorem access_by_any_name_reachable : forall f a n o, api_format f -> get_option f n true = Ok o ->
+  args_option f a n = args_option f a (o_long o) /\ args_is_option_set f a n = args_is_option_set f a (o_long o).
+Proof. exact access_by_any_name_api. Qed.
+Print Assumptions access_by_any_name_reachable.
+Theorem access_agrees_arguments_reachable : forall f a i n ar, api_format f ->
+  nth_error (get_arguments f true) i = Some (n, ar) ->
+  args_argument f a (APos (Z.of_nat i)) = args_argument f a (AName n) /\
+  args_is_argument_set f a (APos (Z.of_nat i)) = args_is_argument_set f a (AName n).
+Proof. exact access_agrees_arguments_api. Qed.
+Print Assumptions access_agrees_arguments_reachable.
+Theorem unset_option_reports_default_reachable : forall f a k o n, api_format f ->
+  In (k, o) (get_options f true) -> sget (o_long o) (ar_opts a) = None ->
+  n = o_long o \/ o_short o = Some n ->
+  args_option f a n = Ok (if o_accepts o then o_default o else VBool false) /\ args_is_option_set f a n = false.
+Proof. exact unset_option_default_api. Qed.
+Print Assumptions unset_option_reports_default_reachable.
+Theorem unset_argument_reports_default_reachable : forall f a i n ar, api_format f ->
+  nth_error (get_arguments f true) i = Some (n, ar) -> sget n (ar_args a) = None ->
+  args_argument f a (APos (Z.of_nat i)) = Ok (a_default ar) /\ args_argument f a (AName n) = Ok (a_default ar) /\
+  args_is_argument_set f a (APos (Z.of_nat i)) = false /\ args_is_argument_set f a (AName n) = false.
+Proof. exact unset_argument_default_api. Qed.
+Print Assumptions unset_argument_reports_default_reachable.
+(* the same for any format satisfying the invariant (a format used as a base; a hand-made one) *)
+Theorem access_agrees_options_wf : forall f a k o s, names_inv f ->
+  In (k, o) (get_options f true) -> o_short o = Some s ->
+  args_option f a k = args_option f a s /\ args_is_option_set f a k = args_is_option_set f a s.
+Proof. exact access_agrees_options_inv. Qed.
+Print Assumptions access_agrees_options_wf.
+Theorem access_agrees_arguments_wf : forall f a i n ar, names_inv f ->
+  nth_error (get_arguments f true) i = Some (n, ar) ->
+  args_argument f a (APos (Z.of_nat i)) = args_argument f a (AName n) /\
+  args_is_argument_set f a (APos (Z.of_nat i)) = args_is_argument_set f a (AName n).
+Proof. exact access_agrees_arguments_inv. Qed.
+Print Assumptions access_agrees_arguments_wf.
+
+(* fmt_inv and fmt_ok do not suffice: a format with a stale short-name index
+   (own options --verbose/-v, --quiet/-q; short index { v -> quiet, q -> quiet }) *)
+Example names_resolve_needs_short_index :
+  fmt_inv NamesResolveExamples.Fbad /\ fmt_ok NamesResolveExamples.Fbad = true /\ ~ short_inv NamesResolveExamples.Fbad /\
+  get_option NamesResolveExamples.Fbad (o_long SpellExamples.o_verbose) true = Ok SpellExamples.o_verbose /\
+  o_short SpellExamples.o_verbose = Some [118]%N /\
+  get_option NamesResolveExamples.Fbad [118]%N true = Ok SpellExamples.o_quiet.
+Proof.
+  destruct NamesResolveExamples.Fbad_resolves_differently as (H1 & H2 & H3 & H4 & H5).
+  exact (conj H1 (conj H2 (conj H3 (conj H4 (conj eq_refl H5))))).
+Qed.
+Print Assumptions names_resolve_needs_short_index.
+(* instance over a base (G of parse_spells_reachable_not_vacuous: own --num/-n --tag/-t --level, arguments port files;
+   inherited --verbose/-v --quiet/-q --color/-c, argument host): inherited --color / -c, own --tag / -t, positions
+   0 and 2, read from the assignment the line D1 spells *)
+Example access_agrees_reachable_instance :
+  let G := FmtOkExamples.G in let A := denote G SpellExamples.D1 in let s := SpellExamples.s in
+  api_format G /\
+  map fst (get_options G true) = [s "num"; s "tag"; s "level"; s "verbose"; s "quiet"; s "color"] /\
+  map fst (get_arguments G true) = [s "host"; s "port"; s "files"] /\
+  args_option G A (s "color") = args_option G A (s "c") /\ args_option G A (s "c") = Ok (VStr (s "auto")) /\
+  args_option G A (s "tag") = args_option G A (s "t") /\
+  args_argument G A (APos 2) = args_argument G A (AName (s "files")) /\
+  args_argument G A (APos 0) = Ok (VStr (s "h1")).
+Proof. exact NamesResolveExamples.G_instance. Qed.
+Print Assumptions access_agrees_reachable_instance.
+
+(* parse_spells_not_vacuous completed: D1 (above) lacks IFlag short, IVal ShortSep and IGroup None / GGlued / GBare.
+   D2 = -n 12 | h2 | -qvcred (IGroup .. GGlued) | --level=null | -n7   (command names omitted)
+   D3 = server | -vqv (IGroup None) | h3 | -q (IFlag short) | -vc (IGroup .. GBare) | --
+   Both satisfy wf_line over F1 (no base) and over the API-built G (over a base); with D1 every constructor of
+   item, vform and glast, both values of the long flags and both tail forms occur. *)
+Example parse_spells_not_vacuous_all_forms :
+  let s := SpellExamples.s in
+  ld_items SpellExamples.D2 =
+    [IVal SpellExamples.o_num ShortSep (s "12"); IPos (s "h2");
+     IGroup [SpellExamples.o_quiet; SpellExamples.o_verbose] (Some (SpellExamples.o_color, GGlued (s "red")));
+     IVal SpellExamples.o_level LongEq (s "null"); IVal SpellExamples.o_num ShortGlued (s "7")] /\
+  ld_items SpellExamples.D3 =
+    [IGroup [SpellExamples.o_verbose; SpellExamples.o_quiet; SpellExamples.o_verbose] None; IPos (s "h3");
+     IFlag SpellExamples.o_quiet false; IGroup [SpellExamples.o_verbose] (Some (SpellExamples.o_color, GBare))] /\
+  render SpellExamples.D2 = [s "-n"; s "12"; s "h2"; s "-qvcred"; s "--level=null"; s "-n7"] /\
+  render SpellExamples.D3 = [s "server"; s "-vqv"; s "h3"; s "-q"; s "-vc"; s "--"] /\
+  wf_line SpellExamples.F1 SpellExamples.D2 = true /\ wf_line SpellExamples.F1 SpellExamples.D3 = true /\
+  wf_line FmtOkExamples.G SpellExamples.D2 = true /\ wf_line FmtOkExamples.G SpellExamples.D3 = true /\
+  (forall lenient, parse FmtOkExamples.G lenient (render SpellExamples.D2) = Ok (denote FmtOkExamples.G SpellExamples.D2)) /\
+  (forall lenient, parse FmtOkExamples.G lenient (render SpellExamples.D3) = Ok (denote FmtOkExamples.G SpellExamples.D3)) /\
+  denote FmtOkExamples.G SpellExamples.D3 =
+    {| ar_opts := [(s "verbose", VBool true); (s "quiet", VBool true); (s "color", VStr (s "auto"))];
+       ar_args := [(s "host", VStr (s "h3"))] |}.
+Proof. exact NamesResolveExamples.all_forms. Qed.
+Print Assumptions parse_spells_not_vacuous_all_forms.
